@@ -365,12 +365,13 @@ class World:
         r = ref or T["OutputReference"](b"\x00" * 32, 0)
         return T["Transaction"]([T["Input"](r, sig)], [T["Output"](v, self.keys.public_key(k)) for (v, k) in outs])
 
-    def mine(self, parent_hash, height, ts, target, txs, pow_ok=True, ev_ok=True, merkle_ok=True, nonce0=0, forge="", alt_tip=None):
+    def mine(self, parent_hash, height, ts, target, txs, pow_ok=True, ev_ok=True, merkle_ok=True, nonce0=0, forge="", alt_tip=None, txids=None):
         """forge (only with ev_ok=False): "" = one bit of the evidence hash flipped; "summary_hash" = a coherent forgery whose
         summary hash is *not* scrypt of the summary (sample and evidence hash derived from it consistently);
         "sample" = wrong sample bytes with a consistent evidence hash."""
         T = self.T
-        mr = indep.merkle_root([indep.txid(t) for t in txs]) if txs else b"\x11" * 32
+        # (txids: the ids under which a receiver files the transactions when they arrive in another encoding than the canonical one)
+        mr = indep.merkle_root(txids if txids is not None else [indep.txid(t) for t in txs]) if txs else b"\x11" * 32
         if not merkle_ok:
             mr = bytes([mr[0] ^ 1]) + mr[1:]
         scr = self.cfg.scrypt()
@@ -402,6 +403,11 @@ class World:
                     if nonce < nonce0 + 300:
                         continue                 # this nonce samples below the fork point: try another one
                     bh = bytes([bh[0] ^ 1]) + bh[1:]
+            elif not ev_ok and forge == "sample_only":
+                # only the stated chain sample differs from the recomputed one; the evidence hash is the one of the proper evidence
+                sample = bytes([sample[0] ^ 0x10]) + sample[1:]
+            elif not ev_ok and forge == "summary_hash_only":
+                sh = bytes([sh[0] ^ 0x10]) + sh[1:]
             elif not ev_ok and forge == "sample":
                 sample = bytes([sample[0] ^ 0x10]) + sample[1:]
                 bh = indep.blake2(sh + sample + indep.enc_txlist(txs))
@@ -519,7 +525,7 @@ class World:
         if mut == "badtarget":
             v = (int.from_bytes(exp, "big") + 1) % (1 << 256)
             target = v.to_bytes(32, "big")
-        forge, alt_tip = ["", "summary_hash", "sample"][(d["id"] + d["ts"]) % 3], None
+        forge, alt_tip = ["", "summary_hash", "sample", "sample_only", "summary_hash_only"][(d["id"] + d["ts"]) % 5], None
         if mut == "evidence_otherchain" and d.get("alt_tip", -1) in self.by_abs:
             forge, alt_tip = "otherchain", indep.blockid(self.by_abs[d["alt_tip"]])
         blk = self.mine(parent_hash, d["height"], d["ts"], target, txs, pow_ok=d["powok"], ev_ok=d["evok"],
